@@ -137,7 +137,7 @@ def rule_decoder_roles(ctx: Ctx, rule: str) -> None:
         for lead, rest in roles.get('numeric_forms', {}).items():
             w = rx.width(rest)
             cs = rx.consumes(rest)
-            got[lead] = (w, cs == HEX)
+            got[lead] = (w, cs == HEX or cs == rx.cs_union(HEX, rx._category('digit', rx.MAXCP)))
         exp = {k: ((v, v), True) for k, v in want.items()}
         return got == exp, str({k: v[0] for k, v in got.items()})
     ok, got = forms_ok(sroles, {'U': 8, 'u': 4, 'x': 2})
